@@ -355,7 +355,7 @@ class PtypeScenario(Scenario):
             ws = self.wf_models(world)
             rng.shuffle(ws)
             prog = []
-            nsteps = rng.randint(3, 12)
+            nsteps = rng.randint(3, 12 * self.depth)
             counter = 0
             force_illegal_on = None
             while len(prog) < nsteps:
